@@ -259,7 +259,35 @@ impl<'de> serde::Deserialize<'de> for FailsMidway {
     }
 }
 
+/// RegisteredClaims embedded in an application struct with #[serde(flatten)], carried by Json<T>
+#[derive(Clone, Debug, serde::Serialize, serde::Deserialize)]
+struct Embedded {
+    #[serde(flatten)]
+    registered: RegisteredClaims,
+    role: String,
+    level: u8,
+}
+
+fn observe_embedded(rec: &mut Recorder, rng: &mut Prng) {
+    let mask = rng.below(128);
+    let s = |k: usize, rng: &mut Prng| if mask >> k & 1 == 1 { Some(rand_string(rng)) } else { None };
+    let t = |k: usize, rng: &mut Prng| if mask >> k & 1 == 1 { Some(rand_ts(rng)) } else { None };
+    let v = Embedded {
+        registered: RegisteredClaims { iss: s(0, rng), sub: s(1, rng), aud: s(2, rng), jti: s(3, rng), exp: t(4, rng), nbf: t(5, rng), iat: t(6, rng) },
+        role: rand_string(rng),
+        level: rng.below(256) as u8,
+    };
+    let mut p = Vec::new();
+    let pe = Json(v.clone()).encode(&mut p).is_ok();
+    let direct = serde_json::to_vec(&v).ok();
+    let back = <Json<Embedded> as Payload>::decode(&p).ok().map(|x| format!("{:?}", x.0) == format!("{v:?}")).unwrap_or(false);
+    let fback = <Json<Embedded> as Footer>::decode(&p).ok().map(|x| format!("{:?}", x.0) == format!("{v:?}")).unwrap_or(false);
+    rec.emit(json!({"fn":"json","payload_encode_ok":pe,"payload_bytes_equal":Some(&p) == direct.as_ref(),"footer_encode_ok":true,"footer_bytes_equal":true,
+        "payload_decode_equal":back,"footer_decode_equal":fback,"bad_agrees":true,"what":"registered claims flattened into an application struct","mask":mask}));
+}
+
 fn observe_json_wrappers(rec: &mut Recorder, rng: &mut Prng) {
+    observe_embedded(rec, rng);
     // every few observations an encode that fails comes first, through both wrappers: what it wrote so far must not show up later
     if rng.below(3) == 0 {
         let mut sink = Vec::new();
